@@ -198,7 +198,7 @@ func c14(tier string) []*explore.Scenario {
 		out = append(out, c14One([][2]string{p[0], p[1]}, bound-1+0))
 	}
 	// batches of RPCs in flight at once (all kinds, mixed outcomes), repeated from the state the previous batch left
-	out = append(out, c14Batch(8, 3, 1), c14Batch(16, 2, 0), c14Batch(32, 2, 0))
+	out = append(out, c14Batch(8, 2, 1), c14Batch(16, 2, 0), c14Batch(32, 2, 0))
 	if tier == "thorough" {
 		out = append(out, c14Batch(8, 2, 2), c14Batch(32, 3, 1))
 	}
